@@ -10,9 +10,9 @@ package kvql
 // a Boolean literal; they are the oracle the simplification rules are proved against.
 
 //@ define bval(x Any) Bool = x == ABool(true)
-//@ axiom ev_bool(e *BoolExpr, k B, v B): evalok(e, k, v) && evalv(e, k, v) == ABool(e.Bool)
-//@ axiom ev_and(e *BinaryOpExpr, k B, v B): e.Op == And ==> (evalok(e, k, v) == (evalok(e.Left, k, v) && isbool(evalv(e.Left, k, v)) && (!bval(evalv(e.Left, k, v)) || (evalok(e.Right, k, v) && isbool(evalv(e.Right, k, v)))))) && (evalok(e, k, v) ==> evalv(e, k, v) == ABool(bval(evalv(e.Left, k, v)) && bval(evalv(e.Right, k, v))))
-//@ axiom ev_or(e *BinaryOpExpr, k B, v B): e.Op == Or ==> (evalok(e, k, v) == (evalok(e.Left, k, v) && isbool(evalv(e.Left, k, v)) && (bval(evalv(e.Left, k, v)) || (evalok(e.Right, k, v) && isbool(evalv(e.Right, k, v)))))) && (evalok(e, k, v) ==> evalv(e, k, v) == ABool(bval(evalv(e.Left, k, v)) || bval(evalv(e.Right, k, v))))
+//@ axiom ev_bool(x Expression, k B, v B): is(x, *BoolExpr) ==> evalok(x, k, v) && evalv(x, k, v) == ABool(as(x, *BoolExpr).Bool)
+//@ axiom ev_and(e *BinaryOpExpr, k B, v B): is(e, *BinaryOpExpr) && e.Op == And ==> (evalok(e, k, v) == (evalok(e.Left, k, v) && isbool(evalv(e.Left, k, v)) && (!bval(evalv(e.Left, k, v)) || (evalok(e.Right, k, v) && isbool(evalv(e.Right, k, v)))))) && (evalok(e, k, v) ==> evalv(e, k, v) == ABool(bval(evalv(e.Left, k, v)) && bval(evalv(e.Right, k, v))))
+//@ axiom ev_or(e *BinaryOpExpr, k B, v B): is(e, *BinaryOpExpr) && e.Op == Or ==> (evalok(e, k, v) == (evalok(e.Left, k, v) && isbool(evalv(e.Left, k, v)) && (bval(evalv(e.Left, k, v)) || (evalok(e.Right, k, v) && isbool(evalv(e.Right, k, v)))))) && (evalok(e, k, v) ==> evalv(e, k, v) == ABool(bval(evalv(e.Left, k, v)) || bval(evalv(e.Right, k, v))))
 //
 // Boolean simplification with true / false: wherever the original evaluates, the result
 // evaluates to the same Boolean.
@@ -22,9 +22,9 @@ package kvql
 //@   requires expr != nil && (is(expr, *BinaryOpExpr) ==> as(expr, *BinaryOpExpr).Left != nil && as(expr, *BinaryOpExpr).Right != nil)
 //@   use ev_and(as(expr, *BinaryOpExpr), k, v)
 //@   use ev_or(as(expr, *BinaryOpExpr), k, v)
-//@   use ev_bool(as(as(expr, *BinaryOpExpr).Left, *BoolExpr), k, v)
-//@   use ev_bool(as(as(expr, *BinaryOpExpr).Right, *BoolExpr), k, v)
-//@   useatret ev_bool(as(res, *BoolExpr), k, v)
+//@   use ev_bool(as(expr, *BinaryOpExpr).Left, k, v)
+//@   use ev_bool(as(expr, *BinaryOpExpr).Right, k, v)
+//@   useatret ev_bool(res, k, v)
 //@   assigns nothing
 //@   ensures[C04] nonnil: res != nil
 //@   ensures[C04] same: evalok(expr, k, v) ==> evalok(res, k, v) && evalv(res, k, v) == evalv(expr, k, v)
@@ -42,8 +42,22 @@ package kvql
 //@ axiom ev_kind(e *BinaryOpExpr, k B, v B): evalok(e, k, v) ==> ((e.Op == And || e.Op == Or || e.Op == Eq || e.Op == NotEq || e.Op == Gt || e.Op == Gte || e.Op == Lt || e.Op == Lte) ==> isbool(evalv(e, k, v))) && ((e.Op == Add || e.Op == Sub || e.Op == Mul || e.Op == Div) ==> (is(e.Left, *StringExpr) ==> isstr(evalv(e, k, v))) && (is(e.Left, *NumberExpr) || is(e.Left, *FloatExpr) ==> isint64(evalv(e, k, v)) || isf64(evalv(e, k, v))))
 //
 //@ func (e *BinaryOpExpr) Execute(kv KVPair, ctx *ExecuteCtx) (result any, err error) implements Expression.Execute
-//@   trusted body verified under C01 (not yet); the interface contract and the result kinds are assumed here
-//@   ensures err == nil ==> ((e.Op == And || e.Op == Or || e.Op == Eq || e.Op == NotEq || e.Op == Gt || e.Op == Gte || e.Op == Lt || e.Op == Lte) ==> isbool(result)) && ((e.Op == Add || e.Op == Sub || e.Op == Mul || e.Op == Div) ==> (is(e.Left, *StringExpr) ==> isstr(result)) && (is(e.Left, *NumberExpr) && is(e.Right, *NumberExpr) ==> isint64(result)) && ((is(e.Left, *FloatExpr) && (is(e.Right, *NumberExpr) || is(e.Right, *FloatExpr))) || (is(e.Left, *NumberExpr) && is(e.Right, *FloatExpr)) ==> isf64(result)) && (is(e.Left, *FloatExpr) || is(e.Right, *FloatExpr) ==> !isint64(result)))
+//@   props C01 C05
+//@   ifaceassumed evalok evalv
+//@   requires wfBin(e)
+//@   ensures kinds: err == nil ==> ((e.Op == And || e.Op == Or || e.Op == Eq || e.Op == NotEq || e.Op == Gt || e.Op == Gte || e.Op == Lt || e.Op == Lte) ==> isbool(result)) && ((e.Op == Add || e.Op == Sub || e.Op == Mul || e.Op == Div) ==> (is(e.Left, *StringExpr) ==> isstr(result)) && (is(e.Left, *NumberExpr) && is(e.Right, *NumberExpr) ==> isint64(result)) && ((is(e.Left, *FloatExpr) && (is(e.Right, *NumberExpr) || is(e.Right, *FloatExpr))) || (is(e.Left, *NumberExpr) && is(e.Right, *FloatExpr)) ==> isf64(result)) && (is(e.Left, *FloatExpr) || is(e.Right, *FloatExpr) ==> !isint64(result)))
+//@   use ev_lit(e.Left, val(kv.Key), val(kv.Value))
+//@   use ev_lit(e.Right, val(kv.Key), val(kv.Value))
+//@   use rt_lit(e.Left)
+// The documented meaning of every operator, on the values of its operands (README "Operators").
+//@   ensures[C01] eq: e.Op == Eq ==> (err == nil) == (lok(e, kv) && rok(e, kv) && eqKinds(lv(e, kv), rv(e, kv))) && (err == nil ==> result == ABool(eqVal(lv(e, kv), rv(e, kv))))
+//@   ensures[C01] ne: e.Op == NotEq ==> (err == nil) == (lok(e, kv) && rok(e, kv) && eqKinds(lv(e, kv), rv(e, kv))) && (err == nil ==> result == ABool(!eqVal(lv(e, kv), rv(e, kv))))
+//@   ensures[C01] prefix: e.Op == PrefixMatch ==> (err == nil) == (lok(e, kv) && rok(e, kv) && isText(lv(e, kv)) && isText(rv(e, kv))) && (err == nil ==> result == ABool(pre(textOf(rv(e, kv)), textOf(lv(e, kv)))))
+//@   ensures[C01] and: e.Op == And || e.Op == KWAnd ==> (err == nil) == (lok(e, kv) && isbool(lv(e, kv)) && (!bval(lv(e, kv)) || (rok(e, kv) && isbool(rv(e, kv))))) && (err == nil ==> result == ABool(bval(lv(e, kv)) && bval(rv(e, kv))))
+//@   ensures[C01] or: e.Op == Or || e.Op == KWOr ==> (err == nil) == (lok(e, kv) && isbool(lv(e, kv)) && (bval(lv(e, kv)) || (rok(e, kv) && isbool(rv(e, kv))))) && (err == nil ==> result == ABool(bval(lv(e, kv)) || bval(rv(e, kv))))
+//@   ensures[C01] textorder: (e.Op == Gt || e.Op == Gte || e.Op == Lt || e.Op == Lte) && rtype(e.Left) == TSTR ==> (err == nil) == (lok(e, kv) && rok(e, kv) && isText(lv(e, kv)) && isText(rv(e, kv))) && (err == nil ==> result == ABool(cmpHolds(opSym(e.Op), cmp(textOf(lv(e, kv)), textOf(rv(e, kv))))))
+//@   ensures[C01] numorder: (e.Op == Gt || e.Op == Gte || e.Op == Lt || e.Op == Lte) && rtype(e.Left) != TSTR ==> (err == nil) == (lok(e, kv) && rok(e, kv) && isNum(lv(e, kv)) && isNum(rv(e, kv))) && (err == nil && isInt(lv(e, kv)) && isInt(rv(e, kv)) ==> result == ABool(intHolds(opSym(e.Op), intof(lv(e, kv)), intof(rv(e, kv))))) && (err == nil && !(isInt(lv(e, kv)) && isInt(rv(e, kv))) ==> result == ABool(fltHolds(opSym(e.Op), numOf(lv(e, kv)), numOf(rv(e, kv)))))
+//@   ensures[C01] math: (e.Op == Sub || e.Op == Mul || e.Op == Div || (e.Op == Add && rtype(e.Left) != TSTR)) ==> (err == nil) == (lok(e, kv) && rok(e, kv) && isNum(lv(e, kv)) && isNum(rv(e, kv)) && !divByZero(opChar(e.Op), rv(e, kv))) && (err == nil && isInt(lv(e, kv)) && isInt(rv(e, kv)) ==> result == AInt(intOp(opChar(e.Op), intof(lv(e, kv)), intof(rv(e, kv))))) && (err == nil && !(isInt(lv(e, kv)) && isInt(rv(e, kv))) ==> result == AFlt(fltOp(opChar(e.Op), numOf(lv(e, kv)), numOf(rv(e, kv)))))
 //
 //@ func (o *ExpressionOptimizer) tryOptimizeFunctionCall(e *FunctionCallExpr) (res Expression, isValue bool)
 //@   trusted thin contract (frame and shape only), body not yet verified
